@@ -149,7 +149,7 @@ def run_suite(d):
     try:
         subprocess.run([PY, '-m', 'pytest', '-q', '-p', 'no:cacheprovider',
                         '--timeout=120', '--continue-on-collection-errors',
-                        '-x', '--junitxml=' + xml], cwd=d,
+                        '--junitxml=' + xml], cwd=d,
                        capture_output=True, text=True, timeout=600)
     except subprocess.TimeoutExpired:
         return False
